@@ -1,6 +1,6 @@
 (* C15 -- non-vacuity and concrete instances. *)
 From Coq Require Import ZArith List Bool Lia Sorted.
-From Verif.C15 Require Import Model Spec Proofs Proofs2 Proofs3.
+From Verif.C15 Require Import Model Spec Proofs Proofs2 Proofs3 Proofs4 Proofs5.
 Import ListNotations.
 Open Scope Z_scope.
 
@@ -136,3 +136,30 @@ Proof. repeat constructor; simpl; lia. Qed.
 Example ex_kron_rec : kron_rec ex_As 4 9 = 2 /\ kron_rec ex_As 4 0 = 0 /\
   kron_partial ex_As [4; 1] false = Some [((1, 5), 4); ((1, 6), 18); ((4, 1), 6); ((4, 2), 27); ((4, 9), 2); ((4, 10), 9)].
 Proof. vm_compute. auto. Qed.
+
+(* reorder_spec: its hypotheses hold for the three-level example and axes (2,0,1); the datum
+   data[K] for K = (1,0,0) (value -2... position 2 of the layout) moves to the permuted digits *)
+Example ex_reorder_hyps :
+  Forall (@NoDup (Z * Z)) ex3_bidx /\ cvalid ex3_bidx [1; 0; 0]%nat /\
+  Forall (fun a => (a < length ex3_bidx)%nat) [2; 0; 1]%nat /\
+  (forall j, (j < length ex3_bidx)%nat -> In j [2; 0; 1]%nat).
+Proof.
+  split; [|split; [|split]].
+  - repeat constructor; simpl; intros H; repeat (destruct H as [H|H]; [discriminate|]); auto.
+  - simpl. lia.
+  - repeat constructor.
+  - intros j Hj. simpl in *. destruct j as [|[|[|j]]]; auto; lia.
+Qed.
+Example ex_reorder_instance :
+  let sel := sel_of (0, 0) ex3_bidx [1; 0; 0]%nat in
+  sel = [(0, 1); (1, 0); (0, 1)] /\ pos_of ex3_bidx [1; 0; 0]%nat = 2%nat /\
+  entry_of ex3_bs sel = (1, 5) /\
+  entry_of (reorder_bs ex3_bs [2; 0; 1]%nat) (pick (0, 0) sel [2; 0; 1]%nat) = (1, 6) /\
+  dense_entry (reorder_asmatrix ex3_bs ex3_bidx [1; -2; 3; 2] [2; 0; 1]%nat) 1 6 = 3.
+Proof. vm_compute. repeat split; reflexivity. Qed.
+
+Example ex_kron_partial_restrict :
+  kron_partial ex_As [4; 1; 4] true
+  = Some [((0, 1), 6); ((0, 2), 27); ((0, 9), 2); ((0, 10), 9); ((1, 5), 4); ((1, 6), 18);
+          ((2, 1), 6); ((2, 2), 27); ((2, 9), 2); ((2, 10), 9)].
+Proof. vm_compute. reflexivity. Qed.
